@@ -10,19 +10,6 @@ Definition tstate := (attrs_t * list diag)%type.
 (* the three-argument user hook CopyTo<S>(diags, field, type, current) *)
 Definition hook_to_t := string -> goval -> tfty -> option tfval -> tfval.
 
-(* obj.<Name>, through the oneof stub when the field is a oneof branch *)
-Definition read_field (i : finfo) (branch_zero : goval) (obj : goval) : res goval :=
-  match fi_oneof i with
-  | None => gget_via obj (fi_via i) (fi_name i)
-  | Some h =>
-      do hv <- gget_via obj (fi_via i) h;
-      match hv with
-      | GOneof (Some (b, payload)) => if String.eqb b (fi_name i) then Ok payload else Ok branch_zero
-      | GOneof None => Ok branch_zero
-      | _ => Panic
-      end
-  end.
-
 (* obj.<Parent> == nil *)
 Definition parent_is_nil (i : finfo) (obj : goval) : res (option bool) :=
   match fi_parent i with
@@ -33,6 +20,41 @@ Definition parent_is_nil (i : finfo) (obj : goval) : res (option bool) :=
       | GPtr None => Ok (Some true)
       | GPtr (Some _) => Ok (Some false)
       | _ => Panic
+      end
+  end.
+
+(* the oneof stub (type assertion of obj.<OneOf> to the wrapper pointer), the holder being read only when the nullable embedded
+   message it is promoted from is set *)
+Definition read_holder (i : finfo) (h : string) (obj : goval) : res goval :=
+  do pn <- parent_is_nil i obj;
+  match pn with
+  | Some true => Ok (GOneof None)
+  | _ => gget_via obj (fi_via i) h
+  end.
+
+(* obj.<Name>, through the oneof stub when the field is a oneof branch *)
+Definition read_field (i : finfo) (branch_zero : goval) (obj : goval) : res goval :=
+  match fi_oneof i with
+  | None => gget_via obj (fi_via i) (fi_name i)
+  | Some h =>
+      do hv <- read_holder i h obj;
+      match hv with
+      | GOneof (Some (b, payload)) => if String.eqb b (fi_name i) then Ok payload else Ok branch_zero
+      | GOneof None => Ok branch_zero
+      | _ => Panic
+      end
+  end.
+
+(* genEmbeddedSource: a message, list or map field promoted from a nullable embedded message is read
+   into a local variable which holds the zero value when the embedded message is nil *)
+Definition read_source (i : finfo) (zero : goval) (obj : goval) : res goval :=
+  match fi_oneof i with
+  | Some _ => read_field i zero obj
+  | None =>
+      do pn <- parent_is_nil i obj;
+      match pn with
+      | Some true => Ok zero
+      | _ => gget_via obj (fi_via i) (fi_name i)
       end
   end.
 
@@ -60,7 +82,12 @@ Definition to_prim_value (i : finfo) (rd : res goval) (obj : goval) (t : tfty) (
           end in
         if fi_placeholder i then Ok (true, u0, p0, ds0)
         else if fi_zero i then
-          do g <- rd; do c <- cast_to k g; Ok (prim_is_zero c, u0, p0, ds0)
+          (* obj.<Parent> == nil || <cast>(field) == <zero> *)
+          do pn <- (match fi_oneof i with Some _ => Ok None | None => parent_is_nil i obj end);
+          match pn with
+          | Some true => Ok (true, u0, p0, ds0)
+          | _ => do g <- rd; do c <- cast_to k g; Ok (prim_is_zero c, u0, p0, ds0)
+          end
         else Ok (false, u0, p0, ds0)
     end;
   let '(n1, u1, p1, ds1) := st in
@@ -77,7 +104,7 @@ Definition to_prim_value (i : finfo) (rd : res goval) (obj : goval) (t : tfty) (
   do np <-
     (if fi_placeholder i then Ok (n1, p1)
      else
-       do pn <- parent_is_nil i obj;
+       do pn <- (match fi_oneof i with Some _ => Ok None | None => parent_is_nil i obj end);
        match pn with
        | Some true => Ok (true, p1)
        | _ => assign
@@ -134,14 +161,14 @@ Section CopyTo.
             match fi_kind i, om with
             | PrimitiveKind, _ =>
                 let bz := zero_of_prim i in
-                do _u <- (match fi_oneof i with Some h => do _u <- gget_via obj (fi_via i) h; Ok tt | None => Ok tt end);
+                do _u <- (match fi_oneof i with Some h => do _u <- read_holder i h obj; Ok tt | None => Ok tt end);
                 do vd <- to_prim_value i (read_field i bz obj) obj t cur ds;
                 let '(v, ds') := vd in
                 Ok (update s v attrs, ds')
             | ObjectKind, Some m' =>
                 (* the oneof stub is evaluated before the type assertion *)
-                let rd := read_field i (GPtr None) obj in
-                do _u <- (match fi_oneof i with Some h => do _u <- gget_via obj (fi_via i) h; Ok tt | None => Ok tt end);
+                let rd := read_source i (if fi_nullable i then GPtr None else m_zero m') obj in
+                do _u <- rd;
                 match t with
                 | TyObj ats =>
                     do vd <- obj_value m' rd ats ds;
@@ -152,13 +179,17 @@ Section CopyTo.
             | PrimitiveListKind, _ | ObjectListKind, _ =>
                 match t with
                 | TyList ety =>
-                    do g <- gget_via obj (fi_via i) (fi_name i);
+                    do g <- read_source i (GSlice None) obj;
                     match g with
                     | GSlice src =>
                         let n := match src with Some l => List.length l | None => O end in
                         let '(cety, cn, celems) :=
                           match cur with
-                          | Some (VList e n0 u0 el) => (e, n0, match el with Some x => x | None => make_nils n end)
+                          | Some (VList e n0 u0 el) =>
+                              (e, n0, match el with
+                                      | Some x => if Nat.eqb (List.length x) n then x else make_nils n
+                                      | None => make_nils n
+                                      end)
                           | _ => (ety, true, make_nils n)
                           end in
                         match src with
@@ -191,12 +222,12 @@ Section CopyTo.
             | PrimitiveMapKind, _ | ObjectMapKind, _ =>
                 match t with
                 | TyMap ety =>
-                    do g <- gget_via obj (fi_via i) (fi_name i);
+                    do g <- read_source i (GMap None) obj;
                     match g with
                     | GMap src =>
                         let '(cety, cn, celems) :=
                           match cur with
-                          | Some (VMap e n0 u0 el) => (e, n0, match el with Some x => x | None => [] end)
+                          | Some (VMap e n0 u0 el) => (e, n0, [])      (* an existing map is re-made *)
                           | _ => (ety, true, [])
                           end in
                         match src with
